@@ -906,6 +906,7 @@ def main(argv):
             "path is guarded by `Some(lower) == upper` of one size_hint() and the wrapper's len() is that lower bound; R-DELEGATE - delegating "
             "constructors make exactly one constructor call and forward the result. NOT decided: that the delivered contents equal the input "
             "element-for-element for every input (a value property), nor the order iterators yield."
+            ' R-RETYPE as a premise (header-erasing conversions keep header and elements in place: equal layouts on the shape matrix, guards evaluated).'
         ),
         rule_text="instances = payload fields per allocation region, constructors (length flow, source disarming), loop shape, fast-path guard, delegating constructors",
         trusted_base=["rustc MIR def-use, dominators computed on it", "ptr::write / copy_nonoverlapping semantics", "expression extractor analysis/symx.py"],
